@@ -4,6 +4,7 @@ import P0f.LogicOk.HeadersMatch
 import P0f.Generated.Logic.HttpSignaturesMatch
 import P0f.Generated.Logic.FindHttpMatch
 import P0f.Generated.Logic.HttpDishonest
+import P0f.Generated.Logic.HttpSoftware
 namespace P0f
 open P0f.Py
 
@@ -62,6 +63,25 @@ theorem gen_dishonest (m : Option HttpRec) (ph : List Hdr) : Gen.dishonest m ph 
      rcases m with _ | r
      · simp
      · cases softwareOf ph <;> cases h : r.sig.software <;> simp [h])
+
+/-- `HTTP.software` (with `_get_header_value` inlined) as printed from the source = the model's: the User-Agent value unless it is
+    missing or empty, else the Server value (C06: what `dishonest` compares with the signature's expected software) -/
+theorem gen_softwareOf (ph : List Hdr) : Gen.softwareOf ph = softwareOf ph := by
+  first
+  | exact rfl
+  | (unfold Gen.softwareOf softwareOf headerValue firstHit
+     generalize "User-Agent".toList = ua
+     generalize "Server".toList = sv
+     simp only []
+     cases h1 : ph.find? (fun h => lower h.name == lower ua) with
+     | none => cases ph.find? (fun h => lower h.name == lower sv) <;> rfl
+     | some u =>
+       simp only [Option.elim_some, Option.map_some]
+       by_cases hv : u.value.isEmpty = true
+       · simp only [hv, Bool.not_true, Bool.false_eq_true, if_false, if_true]
+         cases ph.find? (fun h => lower h.name == lower sv) <;> rfl
+       · have hv' : u.value.isEmpty = false := by simpa using hv
+         simp only [hv', Bool.not_false, if_true, Bool.false_eq_true, if_false])
 
 /-- **C06 (selection) against the source text** -/
 theorem source_findHttpMatch_eq_spec (recs : List HttpRec) (minor : Nat) (ph : List Hdr) :
